@@ -1,6 +1,10 @@
 import UPVerif.Core.Sexp
 import UPVerif.Drv.C33
 import UPVerif.Drv.Den
+import UPVerif.Drv.C21
+import UPVerif.Drv.C18
+import UPVerif.Drv.C35
+import UPVerif.Drv.C17
 import UPVerif.Drv.C02
 import UPVerif.Drv.C01
 import UPVerif.Drv.C26
@@ -57,6 +61,10 @@ def handlers : List (String × (Sexp → Sexp)) := [
   ("C26", Drv.C26.handle),
   ("C01", Drv.C01.handle),
   ("C02", Drv.C02.handle),
+  ("C17", Drv.C17.handle),
+  ("C35", Drv.C35.handle),
+  ("C18", Drv.C18.handle),
+  ("C21", Drv.C21.handle),
   ("ECHO", Drv.Den.handleEcho),
   ("DEN", Drv.Den.handleDen)
 ]
